@@ -735,19 +735,33 @@ def _run_e2e(case):
     def AsyncProcessResponse(self, sink_stack, context, stream, msg):
       raise NotImplementedError()
 
+  def settle():
+    # run the hub until nothing happens any more: no greenlet or callback of an earlier step may still be queued when
+    # the next step starts (the order in which the deferred dispatches are logged below relies on it)
+    quiet = 0
+    for _ in range(400):
+      n = (len(events), len(ars), len(results), len(used))
+      gevent.sleep(0)
+      if (len(events), len(ars), len(results), len(used)) == n:
+        quiet += 1
+        if quiet >= 6:
+          break
+      else:
+        quiet = 0
+
   def complete(gen):
-    # both deferred paths (ContinueWith and on_open) are rawlinks of the Open() result: they run, in the order the
-    # calls were issued, before any of the request greenlets they spawn - also when Open() failed
+    # both deferred paths (ContinueWith and on_open) are rawlinks of the Open() result: once the hub is idle they run, in
+    # the order the calls were issued, before any of the request greenlets they spawn - also when Open() failed
     if gen['ar'].ready():
       return
+    settle()
     events.extend(['d', i] for i in gen['waiting'])
     del gen['waiting'][:]
     if gen['fail']:
       gen['ar'].set_exception(IOError('open failed'))
     else:
       gen['ar'].set()
-    for _ in range(4):
-      gevent.sleep(0)
+    settle()
 
   services = [case['service']] + ([case['service2']] if case.get('service2') is not None else [])
   sinks, disps = [], []
@@ -820,14 +834,11 @@ def _run_e2e(case):
     if idx in chained:
       continue
     issue(idx)
-    gevent.sleep(0)
-    gevent.sleep(0)
-    gevent.sleep(0)
+    settle()
   for sk in sinks:
     for gen in sk.gens:
       complete(gen)
-  for _ in range(4):
-    gevent.sleep(0)
+  settle()
   out_results = []
   for idx, entry in enumerate(ops):
     c = _e2e_call(entry)
